@@ -16,10 +16,12 @@ Theorem c04_limit_is_spec : forall c s l s',
 Proof. exact limit_is_spec. Qed.
 
 (* A task leaves the runahead pool only if its point is within the limit last
-   computed, unless it was manually triggered. *)
+   computed, unless it was manually triggered (or is an already finished task
+   reloaded by a restart, which will not run). *)
 Theorem c04_release_within_limit : forall c s t st h q s' p inp,
   step c s (EState t st h q false) = Ok s' ->
   lookup s t = Some (p, inp) -> p_runahead p = true -> p_manual p = false ->
+  is_final (p_status p) = false ->
   exists l, limit s = Some l /\ fst (p_id p) <= l.
 Proof. exact runahead_release_within_limit. Qed.
 
@@ -50,5 +52,5 @@ Example c04_ex_spec :
   spec_limit {| c_insts := []; c_points := [1;2;3;4;5;6]; c_runahead := 2%nat; c_qlimits := [];
                 c_icp := 1; c_fcp := 6 |}
     {| pool := [new_task (2, 0%nat) [1%nat] [] false; new_task (3, 0%nat) [1%nat] [] false]; limbo := []; hist := [];
-       subs := []; limit := None; relq := []; abs_done := []; stop_point := 6; done := []; to_hold := []; hold_pt := None |} = Some 4.
+       subs := []; limit := None; relq := []; abs_done := []; stop_point := 6; done := []; to_hold := []; hold_pt := None; saved := []; stop_mode := None; stop_task := None |} = Some 4.
 Proof. vm_compute. reflexivity. Qed.
